@@ -141,7 +141,7 @@ pub fn g_pol(_w: &RWorld, rng: &mut Rng, idx: u64) -> (Input, &'static str) {
     if j < 6 {
         // deep chains (native recursion in lift / Drop / Display is outside the model: see notes)
         let d = [100usize, 400, 1000, 5_000, 20_000, 100_000][j];
-        let (open, close, l) = if j % 2 == 0 { ("A[k1,", "]", "deep-and") } else { ("O[1@k1,1@", "]", "deep-or") };
+        let (open, close, l) = if j % 2 == 0 { ("A[k1,", "]", "deep-chain") } else { ("O[1@k1,1@", "]", "deep-chain") };
         let mut s = String::new();
         for _ in 0..d {
             s.push_str(open);
